@@ -145,6 +145,7 @@ R = {
     "ord_anchor_reset": tiered(gaps.ord_anchor_reset),
     "idx_scan_bound": tiered(gaps.idx_scan_bound),
     "sel_rotate_component": tiered(round7.sel_rotate_component),
+    "own_resolver_input": tiered(round7.own_resolver_input),
     "sent_numeric_attrs": tiered(extra.sent_numeric_attrs),
     "ord_complete_loops": tiered(extra.ord_complete_loops),
     "own_mutable_defaults_layout": named("own_mutable_defaults_layout", own.own_mutable_defaults, "quick", tuple(own.SKIP_MODULES), 2),
@@ -353,6 +354,7 @@ for _pid, _txt in _LATER.items():
 # Rules of the seventh seeded round (rules/round7.py, DESIGN section 18): rule -> (properties, floor)
 _ROUND7 = {
     "sel_rotate_component": (["C19"], {"SEL.rotate-component": 1}),
+    "own_resolver_input": (["C12", "C06"], {"OWN.resolver-input": 2}),
 }
 for _rn, (_pids, _fl) in _ROUND7.items():
     for _pid in _pids:
